@@ -37,6 +37,10 @@ pub struct Scenario {
     /// a second `shutdown` (same mode) issued from another handle clone 60 ms after the first
     #[serde(default)]
     pub second_shutdown: bool,
+    /// worker 0's queue filled to the brim: (number of requests queued behind the blocker: 13-18, the queue holds 15 and
+    /// the acceptor moves on to worker 1 only when it is full; a second thread-blocking handler on worker 1 once it is)
+    #[serde(default)]
+    pub flood: Option<(u8, bool)>,
 }
 
 /// `timeout_ms == u32::MAX` stands for `Duration::MAX` ("wait for as long as it takes").
@@ -140,6 +144,23 @@ fn wait_started(rx: &mpsc::Receiver<u32>, want: &[u32], within: Duration) -> boo
 }
 
 pub fn oracle(sc: &Scenario) -> CaseResult {
+    // A verdict that rests on *when* shutdown resolved is only believed when the same scenario gives it three times in a
+    // row (a systematic delay shows every time, a scheduling hiccup of the machine does not).
+    match oracle_once(sc) {
+        Err(f) if f.signature.starts_with("graceful:timeout-not-honoured") => {
+            for _ in 0..2 {
+                match oracle_once(sc) {
+                    Err(g) if g.signature == f.signature => {}
+                    other => return other.map(|mut i| { i.lab("timing:not-reproduced(inconclusive)"); i }),
+                }
+            }
+            Err(f)
+        }
+        other => other,
+    }
+}
+
+fn oracle_once(sc: &Scenario) -> CaseResult {
     let mut info = CaseInfo::default();
     let (tx, rx) = mpsc::channel();
     let st = Arc::new(St { started: Mutex::new(tx), done: Mutex::new(vec![]) });
@@ -192,6 +213,7 @@ pub fn oracle(sc: &Scenario) -> CaseResult {
     // ---- the blocker and the requests queued behind it
     let mut blocker: Option<(u32, TcpStream)> = None;
     let mut queued: Vec<(u32, TcpStream)> = vec![];
+    let mut second_blocker: Option<TcpStream> = None;
     if let Some(b) = sc.blocker_ms {
         let s = send(addr, 1, "b", b, false).map_err(|e| infra("blocker request", e))?;
         expect_dispatched += 1;
@@ -199,7 +221,14 @@ pub fn oracle(sc: &Scenario) -> CaseResult {
             return Err(Fail::new("harness:handlers-did-not-start", "blocker did not start"));
         }
         blocker = Some((b, s));
-        for i in 0..sc.queued.min(6) as u32 {
+        let n_queued = match sc.flood {
+            Some((q, _)) => {
+                let q = q.clamp(13, 18);
+                if workers == 1 { q.min(15) } else { q }
+            }
+            None => sc.queued.min(6),
+        };
+        for i in 0..n_queued as u32 {
             let id = 200 + i;
             let s = send(addr, id, "a", 0, false).map_err(|e| infra("queued request", e))?;
             expect_dispatched += 1;
@@ -207,6 +236,20 @@ pub fn oracle(sc: &Scenario) -> CaseResult {
         }
         if !wait_dispatch(expect_dispatched) {
             return Err(Fail::new("harness:not-dispatched", "connections were not handed to a worker within 5 s (before shutdown)"));
+        }
+        if n_queued >= 15 {
+            info.lab(format!("flood:{n_queued}-queued-behind-a-blocked-worker"));
+        }
+        if let Some((_, true)) = sc.flood {
+            if workers >= 2 && n_queued >= 15 {
+                // worker 0's queue is full: this one lands on worker 1 and blocks its thread as well
+                let s = send(addr, 2, "b", b, false).map_err(|e| infra("second blocker request", e))?;
+                if !wait_started(&rx, &[2], Duration::from_secs(5)) {
+                    return Err(Fail::new("harness:handlers-did-not-start", "second blocker did not start"));
+                }
+                second_blocker = Some(s);
+                info.lab("flood:two-workers-blocked");
+            }
         }
     }
 
@@ -324,6 +367,14 @@ pub fn oracle(sc: &Scenario) -> CaseResult {
                 .max()
                 .unwrap_or(0);
             let bound = last_finish.min(timeout_ms);
+            // "... or the timeout elapses, whichever is first": the timeout is one deadline for the whole server, however many
+            // workers are still busy when it expires
+            if second_blocker.is_some() && timeout_ms + 1_000 < b_ms && r_ms >= timeout_ms + 1_200 && r_ms < b_ms.saturating_sub(200) {
+                return Err(Fail::new(
+                    "graceful:timeout-not-honoured",
+                    format!("two workers were busy for {b_ms} ms; shutdown(Graceful {{ timeout: {timeout_ms} ms }}) resolved after {r_ms} ms (three runs alike)\n{sc:?}"),
+                ));
+            }
             if r_ms > bound + 1_500 {
                 if last_finish + 500 < timeout_ms && r_ms + 100 >= timeout_ms {
                     return Err(Fail::new(
@@ -442,6 +493,7 @@ pub fn oracle(sc: &Scenario) -> CaseResult {
         info.lab("connect-during-drain:not-served");
     }
     drop(idle);
+    drop(second_blocker);
     if sc.queued >= 1 && sc.blocker_ms.is_some() || sc.mid_handler_ms.len() >= 2 {
         info.set_nontrivial(true);
     }
@@ -464,17 +516,25 @@ pub fn scenario_strategy() -> impl Strategy<Value = Scenario> {
         0u8..=2,
         any::<bool>(),
         prop::bool::weighted(0.3),
+        prop::option::weighted(0.12, (13u8..=18, any::<bool>())),
     )
-        .prop_map(|(workers, mode, blocker_ms, queued, mid_handler_ms, idle_keepalive, connect_during, second_shutdown)| {
+        .prop_map(|(workers, mode, blocker_ms, queued, mid_handler_ms, idle_keepalive, connect_during, second_shutdown, flood)| {
             // a Forced shutdown resolves promptly "regardless of in-flight work": a handler that keeps a worker's
             // thread busy for 1.5 s is in-flight work too (short blockers say nothing in this mode)
             let blocker_ms = if mode == Mode::Forced { blocker_ms.map(|b| if b == 400 { 1500 } else { 0 }).filter(|b| *b > 0) } else { blocker_ms };
-            Scenario { workers, mode, blocker_ms, queued, mid_handler_ms, idle_keepalive, connect_during, second_shutdown }
+            // a full queue needs a blocked worker; with a second blocked worker the question is when shutdown resolves
+            // (both handlers outlast the timeout), otherwise whether all 13-18 queued requests are answered (in budget)
+            let (mode, blocker_ms, flood) = match (flood, &mode) {
+                (Some((q, true)), Mode::Graceful { .. }) if workers >= 2 => (Mode::Graceful { timeout_ms: 1500 }, Some(4000), Some((q.max(15), true))),
+                (Some((q, _)), Mode::Graceful { timeout_ms }) if *timeout_ms >= 1500 => (mode.clone(), Some(blocker_ms.unwrap_or(250)), Some((q, false))),
+                _ => (mode, blocker_ms, None),
+            };
+            Scenario { workers, mode, blocker_ms, queued, mid_handler_ms, idle_keepalive, connect_during, second_shutdown, flood }
         })
 }
 
 pub fn main(mut chk: Check) -> ! {
-    chk.ev.rule = "scenario = number of workers (1-3) x shutdown mode (Graceful 1.5 s / 2.5 s / 0.3 s, Forced) x connection states pinned at the moment `shutdown` is called: async handlers mid-flight (0-1500 ms, start confirmed by a channel), an optional handler that blocks worker 0's thread (250/400 ms) with 0-4 further requests written and (hook H4) already dispatched to that worker's queue, 0-2 idle keep-alive connections, an optional connection attempt while draining. Oracle: every request received before the call whose handler finishes >=400 ms inside the timeout gets a complete response; shutdown does not resolve before those handlers finish, resolves about when the last one finishes (not at the timeout), Forced resolves promptly; awaiting a handle resolves; connect() is refused afterwards; nothing is served while draining. non-trivial = >=1 queued request, or >=2 mid-flight handlers; distinct = distinct serialised scenario. All durations are >=100 ms away from every threshold; slow resolutions within 10x slack are labelled inconclusive, not violations.".into();
+    chk.ev.rule = "scenario = number of workers (1-3) x shutdown mode (Graceful 1.5 s / 2.5 s / 0.3 s, Forced) x connection states pinned at the moment `shutdown` is called: async handlers mid-flight (0-1500 ms, start confirmed by a channel), an optional handler that blocks worker 0's thread (250/400 ms) with 0-4 further requests written and (hook H4) already dispatched to that worker's queue, 0-2 idle keep-alive connections, an optional connection attempt while draining; in 1 of 8 scenarios worker 0's queue is filled to the brim (13-18 requests behind the blocker; it holds 15) and, with >=2 workers, a second thread-blocking handler lands on worker 1 (both outlast the timeout: shutdown must resolve at about the timeout, judged over three runs). Oracle: every request received before the call whose handler finishes >=400 ms inside the timeout gets a complete response; shutdown does not resolve before those handlers finish, resolves about when the last one finishes (not at the timeout), Forced resolves promptly; awaiting a handle resolves; connect() is refused afterwards; nothing is served while draining. non-trivial = >=1 queued request, or >=2 mid-flight handlers; distinct = distinct serialised scenario. All durations are >=100 ms away from every threshold; slow resolutions within 10x slack are labelled inconclusive, not violations.".into();
     chk.ev.assume("interleavings inside hyper/tokio are sampled, not enumerated; the acceptor sends every connection to worker 0 until its queue (15) is full, so 'queued' means queued at worker 0");
     if let Some(p) = chk.settings.replay.clone() {
         if !chk.replay_one::<Scenario, _>("scenarios", &p, oracle) {
